@@ -1,0 +1,8 @@
+//go:build verif
+
+package types
+
+// VerifComputeExecAndCommitGasLimit exposes computeExecAndCommitGasLimit to the external verification harness.
+func VerifComputeExecAndCommitGasLimit(callbackData map[string]any, remainingGas, maxGas uint64) (uint64, uint64, error) {
+	return computeExecAndCommitGasLimit(callbackData, remainingGas, maxGas)
+}
